@@ -129,6 +129,26 @@ def run(tier, seed):
                     obs_cases.append('OSimple %s %s %s %s %s' % (coq_bool(req), coq_str(ph), coq_z(a), coq_z(b), coq_bool((a, b) in acc)))
                     obs_meta.append(dict(text=DECL + text, impl=r[1], shape='ShVarVar', value=a, threshold=b, accepted=(a, b) in acc, required=req, phrase=ph))
 
+    # the threshold given by a substitution list: 'X is <phrase> M ..., where M is one of T' (observations only; no compile model)
+    for req in (False, True):
+        for ph in phs:
+            for t in thresholds:
+                text = "It is %s that X is %s M, whenever there is a node X, where M is one of %d." % (POL[req], ph, t)
+                r = do_compile(text)
+                rep.case(('ShOneOf', req, ph, t))
+                if r[0] != 'ok':
+                    rep.violation('compilation failed on a comparison sentence with a substitution list', dict(text=DECL + text, result=r))
+                    continue
+                try:
+                    models = solve.answer_sets(SHAPES['ShVarNum'][2] + '\n' + r[1])
+                except solve.SolveError as e:
+                    rep.violation('clingo rejects the compiled constraint', dict(text=DECL + text, impl=r[1], error=str(e)))
+                    continue
+                acc = set(SHAPES['ShVarNum'][3](m) for m in models)
+                for v in value_domain('ShVarNum'):
+                    obs_cases.append('OSimple %s %s %s %s %s' % (coq_bool(req), coq_str(ph), coq_z(v), coq_z(t), coq_bool(v in acc)))
+                    obs_meta.append(dict(text=DECL + text, impl=r[1], shape='ShOneOf', value=v, threshold=t, accepted=v in acc, required=req, phrase=ph))
+
     rep.sample(corr_meta[0] if corr_meta else None)
     rep.sample(corr_meta[-1] if corr_meta else None)
     rep.sample(obs_meta[len(obs_meta) // 2] if obs_meta else None)
@@ -163,6 +183,10 @@ def run(tier, seed):
             # trigger: Required /\ between ; difference: exactly what the refuted model predicts
             rep.known_finding('F-C03-between-required',
                               "'It is required that X is between L and U' compiles to ':- L > X, X > U' and rejects nothing (e.g. %r)" % findings['F-C03-between-required']['witness'])
+            continue
+        if m.get('shape') == 'ShOneOf' and m['required'] and 'F-C03-required-lost-under-one-of' in findings:
+            # trigger: Required /\ a 'where ... is one of' substitution in the same sentence
+            rep.known_finding('F-C03-required-lost-under-one-of', findings['F-C03-required-lost-under-one-of']['summary'])
             continue
         new_obs.append(i)
     for i in new_obs[:3]:
